@@ -432,7 +432,8 @@ pub fn eval_case(prop: &'static str, c: &Case) -> Outcome {
     for is in issues {
         let mine = match prop {
             "C09" => is.class == "class",
-            "C10" => is.class == "number",
+            // (the code points of a unicode-range are integers the statement wants kept exactly)
+            "C10" => is.class == "number" || (is.class == "micro" && is.key == "unicode-range"),
             _ => is.class == "tokens" || is.class == "whitespace" || is.class == "micro" || (is.class == "number" && is.key != "six-significant-digits"),
         };
         if !mine {
@@ -476,7 +477,7 @@ pub fn run(prop: &'static str, tier: Tier, seed: u64, findings: &Findings) -> i3
     }
     let rule = match prop {
         "C09" => "cases = generated stylesheets (all at-rules, selector functions nested to depth 3, escaped / non-ASCII class names, decoys in non-selector positions) x {prefix none/empty/ascii/non-ascii} x {sign on/off}. Oracle: in the re-tokenised output exactly the model's class-selector identifiers are `P--name` (each preceded by exactly one sign comment when a sign is configured) and every other identifier is unchanged. non-trivial = a class below selector-function depth 1 or inside an at-rule; distinct by source.",
-        "C10" => "cases = generated stylesheets with numeric tokens (integers over the i32 range and its boundaries, decimals to 9 places, exponents, signs, leading dot, percentages, every unit incl. rpx in declarations, functions, queries, preludes) x rpx_ratio in {750,375,10,1,7.5,0.001,30000}. Oracle per aligned numeric token: rpx -> unit vw and |out - v*100/ratio| <= 2*f32::EPSILON*|expected|; integers of other units exactly; other non-integers within the same epsilon; units other than rpx unchanged (output parsed from text by our own scanner). non-trivial = a numeric spelling with > 6 significant digits; distinct by source.",
+        "C10" => "cases = generated stylesheets with numeric tokens (integers over the i32 range and its boundaries, decimals to 9 places, exponents, signs, leading dot, percentages, every unit incl. rpx in declarations, functions, queries, preludes) x rpx_ratio in {750,375,10,1,7.5,0.001,30000}. Oracle per aligned numeric token: rpx -> unit vw and |out - v*100/ratio| <= 2*f32::EPSILON*|expected|; integers of other units exactly; other non-integers within the same epsilon; units other than rpx unchanged (output parsed from text by our own scanner); a unicode-range must still denote the same code points. non-trivial = a numeric spelling with > 6 significant digits; distinct by source.",
         _ => "cases = generated stylesheets from a CSS grammar (nested rule-bearing at-rules incl. media/supports/layer/container/scope/starting-style, keyframes, font-face, page, statement at-rules, selector functions nested to depth 3, all token kinds, calc nests) in varied whitespace/comment style x option sets. Oracle: the non-whitespace, non-comment tokens of the re-tokenised output equal the model's expected tokens (class names prefixed, rpx converted, numbers compared leniently here — C10 owns arithmetic), whitespace survives where the model marks it significant (descendant combinators at every depth, around + and - in calc), none is introduced where it changes meaning, and unicode-range values still denote the same range. non-trivial = a significant whitespace below the top level or a micro-syntax value; distinct by source. The printed text is first re-tokenised against the model (generator self-check).",
     };
     engine::finish(
